@@ -1,29 +1,16 @@
-"""bin/check replay <path>: re-executes the single failing case stored in a replay file against
-the implementation and re-validates it with TLC (same trace specification)."""
-import json, sys
+"""bin/check replay <path>: re-runs the check of the recorded property with the recorded seed and tier, re-executing the
+implementation on the current tree and re-validating with TLC, but reporting only the recorded case (matched by its key).
+Exit 1 (and a VIOLATION line) iff that case still fails."""
+import json, os, subprocess, sys
 import pi2v
 
 
 def main(path):
     r = json.load(open(path))
-    pid = r['property']
-    fam = r['case'].get('family')
-    c = r['case']['case']
-    v = pi2v.Verdict(pid, 'quick')
-    v.known = []
-    import importlib
-    if fam == 'mstep':
-        import c01, machine
-        cases = machine.replay_steps([({k: c[k] for k in ('stack', 'memory', 'claims', 'phase', 'gamma')}, c['ins'])])
-        fails = c01.validate(v, 'replay', cases, semsize=24, semmvs=3)
-    elif fam in ('phase', 'verify'):
-        import c05
-        cases = c05.phase_cases([(c['phase'], c, c['bytes'])]) if fam == 'phase' else c05.verify_cases([(c['gamma'], c['claim'], c['proof'])])
-        fails = c05.validate_stream(v, 'replay', cases)
-    else:
-        print(json.dumps(r, indent=1)[:3000])
-        print('replay: re-run the property check; this family is replayed by its check (deterministic for a fixed VERIF_SEED)')
-        return 0
-    for clause, case in fails:
-        print('FAIL clause', clause, json.dumps(case)[:1500])
-    return 1 if fails else 0
+    env = dict(os.environ)
+    env['PI2_REPLAY_KEY'] = r['key']
+    env['VERIF_SEED'] = str(r.get('seed', 0))
+    env['PI2_EVIDENCE_DIR'] = os.path.join(pi2v.BUILD, 'replay-evidence')
+    print(f"replaying property {r['property']} (seed {r.get('seed', 0)}, tier {r.get('tier', 'quick')}): {r['what'][:300]}")
+    p = subprocess.run([os.path.join(pi2v.VERIF, 'bin/check'), r['property'], '--tier', r.get('tier', 'quick')], env=env)
+    return p.returncode
